@@ -189,7 +189,7 @@ def obligations(tier):
                               bounds='axis component %s = 0, the other two in [-10,10] not both 0 (both signs, incl. along a coordinate axis); '
                                      'angle any (sin,cos) on the unit circle; vector in [-10,10]^3' % zero,
                               claim_doc='|a|^2 * result = Rodrigues(theta, a, v) * |a|^2, per coordinate',
-                              query_timeout_ms=30000, wall_s=200, stop_on_violation=False))
+                              query_timeout_ms=30000, wall_s=200))
     for zero in 'xyz':
         obs.append(Obligation('O1-short-axis-%s-zero' % zero, mk_short_axis(zero), code=code,
                               bounds='axis component %s = 0, the other two in [-2^-30, 2^-30] not both 0; angle any; vector components 0 or of magnitude in [0.5, 10]' % zero,
@@ -207,7 +207,7 @@ def obligations(tier):
         for zero in 'xyz':
             obs.append(Obligation('O1-axis-%s-zero[%+d turns]' % (zero, k), mk_plane(zero, k), code=code,
                                   bounds='as O1-axis-%s-zero with the angle %+d whole turns away from its principal value' % (zero, k),
-                                  claim_doc='as O1', query_timeout_ms=30000, wall_s=200, stop_on_violation=False))
+                                  claim_doc='as O1', query_timeout_ms=30000, wall_s=200))
         for a in generic_axes(tier)[::5 if tier == 'quick' else 3]:
             obs.append(Obligation('O2-axis(%d,%d,%d)[%+d turns]' % (a + (k,)), mk_generic(a, k), code=code,
                                   bounds='concrete generic axis %r; angle %+d whole turns away from its principal value' % (a, k),
